@@ -73,6 +73,6 @@ def amin(
         poly, graded=options["sort_graded"], reverse=options["sort_reverse"]
     )
     indices = numpy.amin(proxy, axis=axis, **kwargs)
-    out = poly[numpy.isin(proxy, indices)]
-    out = out[numpy.argsort(indices.ravel())]
+    positions = numpy.argsort(proxy.ravel())[indices.ravel()]
+    out = poly.ravel()[positions]
     return numpoly.reshape(out, indices.shape)
